@@ -19,6 +19,8 @@ func main() {
 		cmdFn(os.Args[2:])
 	case "check":
 		cmdCheck(os.Args[2:])
+	case "dyn":
+		cmdDyn(os.Args[2:])
 	default:
 		fmt.Fprintln(os.Stderr, "unknown subcommand", os.Args[1])
 		os.Exit(2)
